@@ -217,16 +217,15 @@ class HDDResults(HDDBaseResults):
 
     def load_fitted_strategy(self, strategy_name, dataset_name, cv_fold):
         """Load saved (fitted) strategy"""
-        for strategy_name, dataset_name in self._iter():
-            key = (
-                self._generate_key(
-                    strategy_name, dataset_name, cv_fold, train_or_test="train"
-                )
-                + ".pickle"
+        key = (
+            self._generate_key(
+                strategy_name, dataset_name, cv_fold, train_or_test="train"
             )
-            # TODO if we use strategy specific saving function, how do we
-            #  remember how to load them? check file endings?
-            return load(key)
+            + ".pickle"
+        )
+        # TODO if we use strategy specific saving function, how do we
+        #  remember how to load them? check file endings?
+        return load(key)
 
     def check_fitted_strategy_exists(self, strategy_name, dataset_name, cv_fold):
         path = (
